@@ -430,6 +430,9 @@ def check_termination(obs):
             if fired & {'reset', 'kill'} and not any_term and not _saw_disconnect(obs, side):
                 # a survivor that never touched the dead socket cannot know yet
                 continue
+            if 'blackhole' in fired and not (plan['cfg'][side].get('idle_time') and 'established' in state_times(obs, side)):
+                # nothing reaches this endpoint any more: only its own idle timer can end the session
+                continue
             if len(har.closed[side]) < len(har.opened[side]):
                 out.append(('close', 'half-open-' + stall_cause(obs), '%s still holds an open contact at the end of the run (opened %d, closed %d)' % (
                     side, len(har.opened[side]), len(har.closed[side]))))
@@ -534,9 +537,10 @@ def check_params_and_timers(obs):
             # an idle-timeout SESS_TERM must really follow an idle period
             for msg in obs.wire[side]:
                 if msg['kind'] == 'SESS_TERM' and msg['reason'] == 1 and not msg['flags'] & rfc9174.TERM_REPLY:
-                    before = [when for when in traffic if when < msg['stamp'][1] - 1000]
+                    begin = msg['start_stamp'][1]
+                    before = [when for when in traffic if when < begin]
                     last = max(before) if before else t_est
-                    if msg['stamp'][1] - last < idle * 10**6 - tol:
+                    if begin - last < idle * 10**6 - tol:
                         out.append(('idle', 'timeout-early', '%s sent idle-timeout SESS_TERM only %.3f s after traffic, idle time is %d s' % (
                             side, (msg['stamp'][1] - last) / 1e6, idle)))
             # a terminating endpoint that hears nothing still closes
